@@ -306,6 +306,11 @@ theorem C04_views_change_by_events_only (a : Acc) (k : Nat) :
       seenOf (pubRoom a b r am).h k = seenOf a.h k) :=
   ⟨fun l m hj hl => sendTo_seenOf_other a l m hj hl k, fun b r am hj hl => pubRoom_seenOf_other a b r am hj hl k⟩
 
+/-- The model empties `seenJoin` whenever a session's room is set or cleared (`joinTables`, `leaveRoom`).  The source does
+the same as long as `ClientSession.SetRoom` calls `onRoomSet` and `onRoomSet` assigns nil to `seenJoinedEvents`,
+both as unconditional top-level statements -- regenerated on every run. -/
+theorem C04_view_reset_on_room_change : Generated.Hub.viewResetOnRoomChange = true := by decide
+
 /-- Non-vacuity / witness: in the demo history below every observer's view is its room's member set, and the
 publication theorem's premises are met by two sessions. -/
 example : viewBad (run {} [.connect 1, .connect 2, .hello 1 0 .client "alice" false false,
